@@ -79,6 +79,12 @@ def gen_case(rng, *, max_tids=8, backend=None):
             f |= rng.choice([1, 1, 2]) if be != 'serial' else 1
         if rng.random() < 0.4:
             f |= 4
+        if rng.random() < 0.08:
+            f |= 8          # result is None
+        if failing and rng.random() < 0.12:
+            f |= 32         # fails iff the Lab context value is odd
+        if f & 33 and rng.random() < 0.3:
+            f |= 64         # chained exception
         fl.append(f)
     # instances
     inst = []          # (tid, [child iids])
@@ -105,13 +111,24 @@ def gen_case(rng, *, max_tids=8, backend=None):
             req.append(make(t, 0))
     mw = rng.choice([1, 1, 2, 2, 3, None])
     ctx = rng.choice([0, 5])
-    case = dict(be=be, mw=mw, cof=int(rng.random() < 0.8), bust=int(rng.random() < 0.2), ty=ty, mp=mp,
+    case = dict(cpu=rng.choice([2, 3]), be=be, mw=mw, cof=int(rng.random() < 0.8), bust=int(rng.random() < 0.2), ty=ty, mp=mp,
                 ca=ca, fl=fl, kids=kids, shapes=shapes, inst=inst, req=req, pre={}, ctx=ctx,
                 sched=[rng.randrange(1, 8) if rng.random() < 0.85 else 0 for _ in range(rng.randint(0, 3 * n))])
     # a second run_tasks call on the same task objects and storage
     if rng.random() < 0.35:
         case['second'] = dict(req=[rng.randrange(len(inst)) for _ in range(rng.randint(1, 3))],
-                              bust=int(rng.random() < 0.5), ctx=ctx + 3,
+                              bust=int(rng.random() < 0.5), ctx=ctx + 3, cof=int(rng.random() < 0.8),
+                              same_lab=int(rng.random() < 0.5),
+                              sched=[rng.randrange(1, 8) for _ in range(rng.randint(0, n))])
+    # scenario bias: a fail-fast call that aborts with work in flight, then a tolerant call on the same objects
+    # (often the same Lab) in which context-dependent failures flip
+    if be is not None and n >= 2 and rng.random() < 0.15:
+        case['cof'] = 0
+        case['ctx'] = ctx = 0
+        victims = rng.sample(range(n), min(n, 2))
+        fl[victims[0]] |= 1
+        fl[victims[-1]] = (fl[victims[-1]] | 32) & ~3
+        case['second'] = dict(req=list(req), bust=1, ctx=3, cof=1, same_lab=int(rng.random() < 0.7),
                               sched=[rng.randrange(1, 8) for _ in range(rng.randint(0, n))])
     # pre-cached subset (only cacheable types); mostly the value the task would compute
     if rng.random() < 0.6:
@@ -135,8 +152,10 @@ def ref_values(case, ignore_store=False):
             continue
         f = case['fl'][t]
         reads = [val[d] for d in case['kids'][t]]
-        if f & 3 or ((f & 4) and any(r is None for r in reads)):
+        if f & 3 or ((f & 32) and case['ctx'] % 2 == 1) or ((f & 4) and any(r is None for r in reads)):
             val[t] = None
+        elif f & 8:
+            val[t] = dagtasks.NONE_CODE
         else:
             val[t] = 1000 * t + case['ctx'] + sum(7 if r is None else r for r in reads)
     return val
@@ -146,14 +165,14 @@ def ref_values(case, ignore_store=False):
 def encode(case):
     def lst(l):
         return ','.join(str(x) for x in l)
-    mw = CPU if case['mw'] is None else case['mw']
+    mw = case.get('cpu', CPU) if case['mw'] is None else case['mw']
     inst = ';'.join(f'{t}:{lst(ch)}' for t, ch in case['inst'])
     pre = ','.join(f'{t}:{v}' for t, v in sorted(case['pre'].items()))
     sched = case['sched'] + [ALL] * (len(case['ty']) + 3)
     second = ''
     if case.get('second'):
         s2 = case['second']
-        second = (f" req2={lst(s2['req'])} bust2={s2['bust']} ctx2={s2['ctx']} "
+        second = (f" req2={lst(s2['req'])} bust2={s2['bust']} ctx2={s2['ctx']} cof2={s2.get('cof', case['cof'])} "
                   f"sched2={lst(s2['sched'] + [ALL] * (len(case['ty']) + 3))}")
     return (f"RUN be={case['be']} mw={mw} cof={case['cof']} bust={case['bust']} ty={lst(case['ty'])} "
             f"mp={','.join('-' if x is None else str(x) for x in case['mp'])} ca={lst(case['ca'])} "
@@ -261,7 +280,7 @@ class Spy:
                     fakeproc.CTL.release(fid)
         for task, res in self.inner.wait(timeout_seconds=0):
             if isinstance(res, ResultMeta):
-                o = 'ok:%s' % (self.inner.results_map[task].value,)
+                o = 'ok:%s' % (code(self.inner.results_map[task].value),)
             elif isinstance(res, TaskDiedError):
                 o = 'died'
             else:
@@ -295,10 +314,15 @@ def lst(l):
     return ','.join(str(x) for x in l)
 
 
+def code(v):
+    """observation spelling of a task value"""
+    return dagtasks.NONE_CODE if v is None else v
+
+
 def phases_of(case):
     """a case is one run_tasks call, optionally followed by a second one on the SAME task objects and
     storage (another Lab: other context, request list, bust flag, schedule)"""
-    ph = [dict(req=case['req'], bust=case['bust'], ctx=case['ctx'], sched=case['sched'])]
+    ph = [dict(req=case['req'], bust=case['bust'], ctx=case['ctx'], sched=case['sched'], cof=case['cof'])]
     if case.get('second'):
         ph.append(case['second'])
     return ph
@@ -322,6 +346,10 @@ def run_real(case, workdir):
     obs_all, recs = [], []
     store_before = dict(case['pre'])
     marked_before = []
+    lab = None
+    real_cpu_count = os.cpu_count
+    if case['mw'] is None and 'cpu' in case:
+        os.cpu_count = lambda: case['cpu']      # the default worker count is the CPU count: make it small enough to bite
     try:
         for pi, ph in enumerate(phases_of(case)):
             if os.path.exists(exec_log):
@@ -333,8 +361,14 @@ def run_real(case, workdir):
             backend = SpyBackend(be, ph['sched'], events, max_waits=len(ph['sched']) + n + 6)
             L.TaskState = RecordingTaskState
             RecordingTaskState.last = None
-            lab = labtech.Lab(storage=storage_dir, runner_backend=backend, max_workers=case['mw'],
-                              continue_on_failure=bool(case['cof']), context={'c': ph['ctx']})
+            if pi > 0 and ph.get('same_lab') and lab is not None:
+                # a later call on the SAME Lab object (state kept on the Lab must not leak between calls)
+                lab.runner_backend = backend
+                lab.context = {'c': ph['ctx']}
+                lab.continue_on_failure = bool(ph.get('cof', case['cof']))
+            else:
+                lab = labtech.Lab(storage=storage_dir, runner_backend=backend, max_workers=case['mw'],
+                                  continue_on_failure=bool(ph.get('cof', case['cof'])), context={'c': ph['ctx']})
             if pi == 0:
                 # pre-populate the cache
                 for t, v in case['pre'].items():
@@ -346,6 +380,7 @@ def run_real(case, workdir):
             req = [objs[i] for i in ph['req']]
             status = None
             returned = None
+            lab_error_cause = None
             try:
                 if RUN_HOOK is not None:
                     RUN_HOOK.begin(events)
@@ -354,9 +389,10 @@ def run_real(case, workdir):
                 finally:
                     if RUN_HOOK is not None:
                         RUN_HOOK.end()
-                status = 'returned ' + ','.join(f'{t.k}:{v}' for t, v in returned.items())
+                status = 'returned ' + ','.join(f'{t.k}:{code(v)}' for t, v in returned.items())
             except LabError as e:
                 status = f'raised LabError {backend.spy.last_yield if backend.spy else None}'
+                lab_error_cause = (type(e.__cause__).__name__, str(e.__cause__), str(e))
             except KeyError:
                 status = 'raised KeyError'
             except HarnessHang as e:
@@ -404,7 +440,7 @@ def run_real(case, workdir):
                     continue
                 try:
                     if lab.is_cached(o):
-                        store[t] = o._lt.cache.load_result_with_meta(lab._storage, o).value
+                        store[t] = code(o._lt.cache.load_result_with_meta(lab._storage, o).value)
                 except BaseException as e:
                     if RUN_HOOK is None:
                         raise
@@ -418,7 +454,7 @@ def run_real(case, workdir):
                                       if st is not None else ''))
             recs.append(dict(events=events, status=status, returned=returned, execs=execs, store=store, marked=marked,
                              plan=plan, objs=objs, inflight=inflight, phase=pi, store_before=store_before,
-                             marked_before=marked_before, store_errors=store_errors,
+                             marked_before=marked_before, store_errors=store_errors, lab_error_cause=lab_error_cause,
                              alive_at_exit=sorted(fakeproc.task_of(p.kwargs['thunk']).k for p in fakeproc.CTL.procs.values() if p.alive) if be != 'serial' else [],
                              terminated=[t.k for t in fakeproc.CTL.terminated] if be != 'serial' else []))
             obs_all.append('; '.join(parts))
@@ -426,10 +462,20 @@ def run_real(case, workdir):
                 fakeproc.uninstall()
             store_before = dict(store)
             marked_before = list(marked)
-            if not status.startswith('returned'):
+            if not status.startswith(('returned', 'raised LabError')):
                 break
+            if status.startswith('raised LabError'):
+                # aborted call: workers still in flight finish in the background (the fake layer has already run them)
+                for t in sorted(inflight):
+                    o = first.get(t)
+                    try:
+                        if o is not None and lab.is_cached(o):
+                            store_before[t] = code(o._lt.cache.load_result_with_meta(lab._storage, o).value)
+                    except BaseException:
+                        pass
         return ' || '.join(obs_all), recs
     finally:
+        os.cpu_count = real_cpu_count
         if be != 'serial' and fakeproc.CTL is not None:
             fakeproc.uninstall()
         L.TaskState = RecordingTaskState.__mro__[1]
